@@ -15,52 +15,63 @@ Proof.
 Qed.
 
 (* one record: whatever the checker accepted, decoding (onto the record itself
-   or onto zero) leaves every protected field that is present in the current
-   JSON as it was *)
+   or onto zero) leaves every protected field as it was *)
 Lemma rec_sound sch r base raw allow r' :
   schema_ok sch = true -> wt_rec sch r = true -> (base = r \/ base = zero_rec sch) ->
   validate_changes (dedupe (enc_rec sch r)) (dedupe raw) allow = true ->
   dec_rec sch base raw = Some r' ->
   forall f, In f sch -> str_in (f_name f) allow = false ->
-    has_key (f_name f) (enc_rec sch r) = true ->
     bget (f_name f) r' (zero_k (f_kind f)) = bget (f_name f) r (zero_k (f_kind f)).
 Proof.
-  intros Hok Hwt Hbase Hval Hdec f Hin Hprot Hpres.
+  intros Hok Hwt Hbase Hval Hdec f Hin Hprot.
   destruct (schema_ok_parts _ Hok) as [Hnd Hfok].
-  unfold validate_changes in Hval. apply Bool.andb_true_iff in Hval. destruct Hval as [_ Hall].
-  rewrite (dedupe_id (enc_rec sch r)) in Hall by (now apply enc_rec_nodup).
+  unfold validate_changes in Hval. apply Bool.andb_true_iff in Hval. destruct Hval as [Hlen Hall].
+  apply Nat.eqb_eq in Hlen.
+  pose proof (enc_rec_nodup sch r Hnd) as Hnde.
+  rewrite (dedupe_id (enc_rec sch r)) in Hall, Hlen by assumption.
+  rewrite forallb_forall in Hall.
+  (* the incoming map has exactly the keys of the current document *)
+  assert (Hkeys : forall n, has_key n raw = true -> In n (map fst (enc_rec sch r))).
+  { intros n Hn.
+    assert (Hincl : incl (map fst (enc_rec sch r)) (map fst (dedupe raw))).
+    { intros k Hk. apply in_map_iff in Hk. destruct Hk as ([k0 v0] & <- & Hk).
+      specialize (Hall _ Hk). cbn in Hall. apply Bool.andb_true_iff in Hall. destruct Hall as [Hh _].
+      now apply has_key_In. }
+    assert (Hback : incl (map fst (dedupe raw)) (map fst (enc_rec sch r))).
+    { apply NoDup_length_incl; [exact Hnde| |exact Hincl]. rewrite !map_length. lia. }
+    apply Hback. apply has_key_In. now rewrite has_key_dedupe. }
   pose proof (oget_enc_rec sch r f Hnd Hin) as He. cbn in He.
   set (v := bget (f_name f) r (zero_k (f_kind f))) in *.
-  destruct (f_omit f && emp_k (f_kind f) v) eqn:Eo.
-  { apply oget_none_iff in He. congruence. }
-  pose proof (oget_some_in _ _ _ He) as Hmem.
-  rewrite forallb_forall in Hall. specialize (Hall _ Hmem). cbn in Hall.
-  rewrite Hprot in Hall. cbn in Hall. unfold mget in Hall. rewrite oget_dedupe in Hall.
   pose proof (dec_rec_get sch base raw r' f (zero_k (f_kind f)) Hnd Hdec Hin) as Hg.
   rewrite (field_dec (f_kind f) (f_omit f) v _ raw (f_name f)) in Hg.
   - now inversion Hg.
   - apply field_ok_kok. now apply Hfok.
   - unfold v. eapply wt_rec_get; eauto.
   - destruct Hbase as [->| ->]; [now left|right; now apply bget_zero_rec].
-  - left. split; [exact Eo|exact Hall].
+  - destruct (f_omit f && emp_k (f_kind f) v) eqn:Eo.
+    + (* omitted from the current document, hence absent from the incoming one *)
+      right. split; [reflexivity|]. apply oget_none_iff.
+      destruct (has_key (f_name f) raw) eqn:Eh; [|reflexivity].
+      apply Hkeys in Eh. apply has_key_In in Eh. apply oget_none_iff in He. congruence.
+    + left. split; [reflexivity|].
+      pose proof (oget_some_in _ _ _ He) as Hmem. specialize (Hall _ Hmem). cbn in Hall.
+      apply Bool.andb_true_iff in Hall. destruct Hall as [_ Hall].
+      rewrite Hprot in Hall. cbn in Hall. unfold mget in Hall. rewrite oget_dedupe in Hall. exact Hall.
 Qed.
 
 Definition has_rules (ac : allowed_change) : Prop :=
   is_nil (ac_single ac) && is_nil (ac_multi ac) = false.
 
-(* single-record parameters: soundness under the guard "every protected field is
-   present in the current amino-JSON" *)
-Theorem single_sound_partial sch vf r ac inc st' :
+(* single-record parameters *)
+Theorem single_sound_full sch vf r ac inc st' :
   schema_ok sch = true -> wt_rec sch r = true -> has_rules ac ->
-  (forall f, In f sch -> str_in (f_name f) (ac_single ac) = false ->
-     has_key (f_name f) (enc_rec sch r) = true) ->
   allows_change ac (RVal (enc_struct sch r)) (Some inc) = Some true ->
   apply_single sch vf (enc_struct sch r) inc = AOk st' ->
   exists r', st' = enc_struct sch r' /\ vf r' = true /\
     forall f, In f sch -> str_in (f_name f) (ac_single ac) = false ->
       bget (f_name f) r' (zero_k (f_kind f)) = bget (f_name f) r (zero_k (f_kind f)).
 Proof.
-  intros Hok Hwt Hrules Hguard Hallow Happ.
+  intros Hok Hwt Hrules Hallow Happ.
   unfold allows_change in Hallow. unfold has_rules in Hrules. rewrite Hrules in Hallow.
   cbn [enc_struct] in Hallow.
   destruct (to_map inc) as [i|] eqn:Ei; [|discriminate].
@@ -72,11 +83,22 @@ Proof.
   exists r'. split; [reflexivity|]. split; [exact Ev|].
   intros f Hin Hprot.
   destruct inc; cbn in Ei, Ed; try discriminate.
-  - (* null: the map is empty, so the current document has no key at all *)
-    inversion Ei; subst i. unfold validate_changes in Hval.
-    apply Bool.andb_true_iff in Hval. destruct Hval as [Hl _]. apply Nat.eqb_eq in Hl.
-    specialize (Hguard f Hin Hprot). rewrite <- has_key_dedupe in Hguard.
-    destruct (dedupe (enc_rec sch r)); [discriminate|discriminate].
+  - (* null: the map is empty, so the current document has no key at all: every
+       field of r is an omitted zero, and decoding null zeroes the record *)
+    inversion Ei; subst i. injection Ed as <-.
+    destruct (schema_ok_parts _ Hok) as [Hnd _].
+    rewrite (bget_zero_rec sch f Hnd Hin).
+    pose proof (oget_enc_rec sch r f Hnd Hin) as He. cbn in He.
+    pose proof (wt_rec_get sch r f Hwt Hnd Hin) as Hwf.
+    set (v := bget (f_name f) r (zero_k (f_kind f))) in *.
+    unfold validate_changes in Hval. apply Bool.andb_true_iff in Hval. destruct Hval as [Hl _].
+    apply Nat.eqb_eq in Hl.
+    destruct (f_omit f && emp_k (f_kind f) v) eqn:Eo.
+    + apply Bool.andb_true_iff in Eo. destruct Eo as [_ Ee].
+      destruct (f_kind f) as [k|fs]; cbn in *; [|discriminate].
+      symmetry. now apply json_eqb_zero_s.
+    + exfalso. apply oget_some_has in He. rewrite <- has_key_dedupe in He.
+      destruct (dedupe (enc_rec sch r)); [discriminate|discriminate].
   - inversion Ei; subst i.
     eapply rec_sound with (base := r); eauto.
 Qed.
@@ -127,13 +149,11 @@ Qed.
 Definition req_of (sch : schema) (reqs : list subreq) (r : jmap) : option subreq :=
   find (fun q => val_is (dedupe (enc_rec sch r)) (sr_key q) (sr_val q)) reqs.
 
-(* multi-record parameters: under the guard, every current record has a
-   counterpart in the stored result, selected by its requirement's key value,
-   whose protected fields are intact; the number of records is unchanged *)
-Theorem multi_sound_partial sch vf rs ac inc st' :
+(* multi-record parameters: every current record has a counterpart in the stored
+   result, selected by its requirement's key value, whose protected fields are
+   intact; the number of records is unchanged *)
+Theorem multi_sound_counterpart sch vf rs ac inc st' :
   schema_ok sch = true -> Forall (fun r => wt_rec sch r = true) rs -> rs <> [] -> has_rules ac ->
-  (forall r q f, In r rs -> req_of sch (ac_multi ac) r = Some q -> In f sch ->
-     str_in (f_name f) (sr_attrs q) = false -> has_key (f_name f) (enc_rec sch r) = true) ->
   allows_change ac (RVal (enc_slice sch rs)) (Some inc) = Some true ->
   apply_multi sch vf (enc_slice sch rs) inc = AOk st' ->
   exists rs', st' = enc_slice sch rs' /\ vf rs' = true /\ List.length rs' = List.length rs /\
@@ -143,7 +163,7 @@ Theorem multi_sound_partial sch vf rs ac inc st' :
         forall f, In f sch -> str_in (f_name f) (sr_attrs q) = false ->
           bget (f_name f) r' (zero_k (f_kind f)) = bget (f_name f) r (zero_k (f_kind f)).
 Proof.
-  intros Hok Hwt Hne Hrules Hguard Hallow Happ.
+  intros Hok Hwt Hne Hrules Hallow Happ.
   unfold allows_change in Hallow. unfold has_rules in Hrules. rewrite Hrules in Hallow.
   assert (Henc : enc_slice sch rs = JArr (map (enc_struct sch) rs)).
   { destruct rs; [congruence|reflexivity]. }
@@ -610,3 +630,35 @@ Proof.
   eapply (process_all_events sls s0 (props s) s0 s1 e1 E); auto.
   unfold same_frame; auto.
 Qed.
+
+(** ** the stored result, record by record (used to state "no record is replaced") *)
+
+Definition opt_json_eqb (a b : option json) : bool :=
+  match a, b with
+  | Some x, Some y => json_eqb x y
+  | None, None => true
+  | _, _ => false
+  end.
+
+(* the stored record object o' keeps every field of r outside q's allow-list *)
+Definition keeps_protected (sch : schema) (q : subreq) (r : jmap) (o' : jmap) : bool :=
+  forallb (fun f => str_in (f_name f) (sr_attrs q)
+                    || opt_json_eqb (oget (f_name f) o') (oget (f_name f) (enc_rec sch r))) sch.
+
+(* o' is the (possibly modified) image of some current record *)
+Definition accounted (sch : schema) (reqs : list subreq) (rs : list jmap) (o' : json) : bool :=
+  match o' with
+  | JObj l' =>
+      existsb (fun r => match req_of sch reqs r with
+                        | Some q => val_is l' (sr_key q) (sr_val q) && keeps_protected sch q r l'
+                        | None => false
+                        end) rs
+  | _ => false
+  end.
+
+Definition all_accounted (sch : schema) (reqs : list subreq) (rs : list jmap) (st' : json) : bool :=
+  match st' with
+  | JArr l => forallb (accounted sch reqs rs) l
+  | JNull => true
+  | _ => false
+  end.
